@@ -25,25 +25,33 @@ Restored(snap) == snap
 CONSTANTS Blocks, Sync, PersistentAtStart,
           DisableOnError      \* "always" = the code; deviations: "never" = a block whose handler failed is still
                               \* saved at stop; "first" = only the block whose error stopped the simulation is excluded
-VARIABLES phase, live, store, ts, pers, startOk, now, failed
-pvars == <<phase, live, store, ts, pers, startOk, now, failed>>
+VARIABLES phase, live, store, ts, pers, startOk, now, failed,
+          dirty               \* blocks whose state changed by their own activity (not by an event) since the last save
+pvars == <<phase, live, store, ts, pers, startOk, now, failed, dirty>>
 
 Snap(b) == live[b]
 PInit == /\ phase = "new" /\ live = [b \in Blocks |-> ABSENT] /\ store = [b \in Blocks |-> ABSENT]
-         /\ ts = NONE /\ pers = PersistentAtStart /\ startOk = FALSE /\ now = 0 /\ failed = {}
+         /\ ts = NONE /\ pers = PersistentAtStart /\ startOk = FALSE /\ now = 0 /\ failed = {} /\ dirty = {}
 (* start-up: a failing start() ends the run before anything is initialised *)
-StartFails == /\ phase = "new" /\ phase' = "stopped" /\ UNCHANGED <<live, store, ts, pers, startOk, now, failed>>
+StartFails == /\ phase = "new" /\ phase' = "stopped" /\ UNCHANGED <<live, store, ts, pers, startOk, now, failed, dirty>>
 InitDone == /\ phase = "new" /\ phase' = "running" /\ startOk' = TRUE
             /\ \E l \in [Blocks -> [st : {1, 2}, due : {NONE, 3}, sd : {0}]] :
                  /\ live' = l
                  /\ store' = [b \in Blocks |-> IF b \in pers THEN l[b] ELSE store[b]]   \* saved after initialisation
-            /\ UNCHANGED <<ts, pers, now, failed>>
+            /\ UNCHANGED <<ts, pers, now, failed, dirty>>
 (* an event handled without error (accepted or rejected): the state is saved afterwards *)
 EventOk(b) == /\ phase = "running"
               /\ \E s \in [st : {1, 2}, due : {NONE, now + 2}, sd : {0, 1}] :
                    /\ live' = [live EXCEPT ![b] = s]
                    /\ store' = IF b \in pers /\ b \in Sync THEN [store EXCEPT ![b] = s] ELSE store
+              /\ dirty' = dirty \ {b}
               /\ UNCHANGED <<phase, ts, pers, startOk, now, failed>>
+(* the state changes by the block's own activity (a timer, a reading of a gauge): nothing *)
+(* is saved then; the regular stop saves it                                               *)
+SelfChange(b) == /\ phase = "running"
+                 /\ \E s \in [st : {1, 2}, due : {NONE}, sd : {0, 1}] : live' = [live EXCEPT ![b] = s]
+                 /\ dirty' = dirty \cup {b}
+                 /\ UNCHANGED <<phase, store, ts, pers, startOk, now, failed>>
 (* the handler fails: the simulation stops, the block's state is suspect: never saved again *)
 (* (also while the simulation is already stopping - after a stop request or an error    *)
 (* elsewhere - until the clean-up saves the states)                                      *)
@@ -52,20 +60,20 @@ EventFails(b) == /\ phase \in {"running", "failing"} /\ phase' = "failing"
                              THEN pers \ {b} ELSE pers)
                  /\ failed' = failed \cup {b}
                  /\ \E s \in [st : {1, 2}, due : {NONE}, sd : {7}] : live' = [live EXCEPT ![b] = s]   \* possibly corrupted
-                 /\ UNCHANGED <<store, ts, startOk, now>>
+                 /\ UNCHANGED <<store, ts, startOk, now, dirty>>
 (* a stop request / an error that is not a handler error of a persistent block *)
-StopReq == /\ phase = "running" /\ phase' = "failing" /\ UNCHANGED <<live, store, ts, pers, startOk, now, failed>>
-Tick == /\ phase = "running" /\ now < 4 /\ now' = now + 1 /\ UNCHANGED <<phase, live, store, ts, pers, startOk, failed>>
+StopReq == /\ phase = "running" /\ phase' = "failing" /\ UNCHANGED <<live, store, ts, pers, startOk, now, failed, dirty>>
+Tick == /\ phase = "running" /\ now < 4 /\ now' = now + 1 /\ UNCHANGED <<phase, live, store, ts, pers, startOk, failed, dirty>>
 (* regular stop / stop after an error: all (still) persistent blocks + the time stamp *)
 Stop == /\ phase \in {"running", "failing"} /\ phase' = "stopped"
         /\ IF startOk THEN /\ store' = [b \in Blocks |-> IF b \in pers THEN live[b] ELSE store[b]]
                            /\ ts' = now
                       ELSE UNCHANGED <<store, ts>>
-        /\ UNCHANGED <<live, pers, startOk, now, failed>>
-PNext == StartFails \/ InitDone \/ Tick \/ StopReq \/ Stop \/ \E b \in Blocks : EventOk(b) \/ EventFails(b)
+        /\ UNCHANGED <<live, pers, startOk, now, failed, dirty>>
+PNext == StartFails \/ InitDone \/ Tick \/ StopReq \/ Stop \/ \E b \in Blocks : EventOk(b) \/ EventFails(b) \/ SelfChange(b)
 
 (* after initialisation and after every handled event the storage holds the current state *)
-StoreIsCurrent == phase = "running" => \A b \in pers \cap Sync : store[b] = live[b]
+StoreIsCurrent == phase = "running" => \A b \in (pers \cap Sync) \ dirty : store[b] = live[b]
 (* nothing of a block is written once one of its handlers failed *)
 NoWriteAfterHandlerError == [][\A b \in failed : store'[b] = store[b]]_pvars
 (* nothing at all is written if the start-up failed *)
